@@ -116,6 +116,50 @@ def check(ck):
         ck.require(not problems, "C18.2", "jsonrpc.TransportMixIn.send_content: stack %s" % label, "emits %r" % (sorted(want.items()),),
                    "for the header stack '%s' (%r + %r): %s" % (label, extra, stack, "; ".join(problems)), q.loc(fe, fe.node))
     ck.floor("C18.2", 10)
+    # structural form of the same clause (normalise before merging; recency = stack order; unconditional overwrite)
+    ge = cfg_of(fe)
+    de = dominators(ge)
+    merged = None
+    stores = []
+    for n in ge.live_nodes():
+        if n.kind == "stmt" and isinstance(n.ast, ast.Assign) and isinstance(n.ast.targets[0], ast.Subscript) and isinstance(n.ast.targets[0].value, ast.Name):
+            stores.append(n)
+    upd = [(n, c) for n in ge.live_nodes() for c in node_calls(n) if call_name(c) in ("update", "setdefault") and isinstance(c.func.value, ast.Name)]
+    for (n, c) in upd:
+        ck.bad("C18.2s", "%s: `%s`" % (q.fn(fe), dump(c)[:50]), "a header dictionary is merged with its raw (not lower-cased) keys or without "
+               "overwriting: a superseded value can win", q.loc(fe, n))
+    stack_loops = [n for n in ge.live_nodes() if n.kind == "for_body" and "additional_headers" in dump(n.ast.iter) and "self" in dump(n.ast.iter)]
+    ck.require(len(stack_loops) == 1 and dump(stack_loops[0].ast.iter) == "self.additional_headers", "C18.2s", "%s: merge walks the stack oldest to newest" % q.fn(fe),
+               "for headers in self.additional_headers", "the header stack is merged in the order `%s`" % ([dump(n.ast.iter) for n in stack_loops]), q.loc(fe, fe.node))
+    n_st = 0
+    for n in stores:
+        tk = prov.origin(ge, n, n.ast.targets[0].slice)
+        lowered = prov.contains(tk, lambda x: x[0] == "call" and x[1][0] == "attr" and x[1][2] == "lower")
+        from_stack = prov.contains(tk, lambda x: x[0] == "elem")
+        if not from_stack:
+            continue
+        n_st += 1
+        ck.require(lowered, "C18.2s", "%s: `%s`" % (q.fn(fe), q.stmt_text(n)[:50]), "key lower-cased at insertion",
+                   "an entry of a pushed dictionary is merged under its raw key %s: names differing only in letter case are not superseded"
+                   % prov.show(tk)[:60], q.loc(fe, n))
+        guards = [ge.nodes[i] for i in de[n.id] if ge.nodes[i].kind == "branch"]
+        ck.require(not guards, "C18.2s", "%s: `%s` unconditional" % (q.fn(fe), q.stmt_text(n)[:40]), "later values overwrite earlier ones",
+                   "the merge keeps an existing value (guard `%s`): the most recently pushed value does not win" % [dump(b.test) for b in guards], q.loc(fe, n))
+        tv = prov.origin(ge, n, n.ast.value)
+        ck.require(tv[0] == "call" and tv[1] == ("global", "str"), "C18.2s", "%s: value converted with str()" % q.fn(fe), "str(value)",
+                   "header values are not converted to str", q.loc(fe, n))
+    if n_st < 2:
+        raise AnalysisError("anchor vanished: merge stores in emit_additional_headers (found %d)" % n_st)
+    if stack_loops:
+        extra_stores = [n for n in stores if prov.contains(prov.origin(ge, n, n.ast.targets[0].slice), lambda x: x[0] == "attr" and x[2] == "_extra_headers")]
+        ck.require(all(n.lineno < stack_loops[0].lineno for n in extra_stores) and bool(extra_stores), "C18.2s",
+                   "%s: URL-credential headers merged before the stack" % q.fn(fe), "so that pushed headers supersede them",
+                   "headers derived from the URL are merged after the pushed ones", q.loc(fe, fe.node))
+    pops_ro = [(n, c) for n in ge.live_nodes() for c in node_calls(n) if call_name(c) == "pop" and len(c.args) == 2]
+    puts = [n for n in ge.live_nodes() for c in node_calls(n) if call_name(c) == "putheader"]
+    ck.require(len(pops_ro) == 1 and all(pops_ro[0][0].lineno < p_.lineno for p_ in puts) and bool(puts) and
+               all(pops_ro[0][0].lineno > n.lineno for n in stores), "C18.3", "%s: merge -> protected-name filter -> emission" % q.fn(fe), "ordered",
+               "the protected names are not removed after the merge and before the emission", q.loc(fe, fe.node))
     ro = prog.const("jsonrpc", _class_attr(prog, "TransportMixIn", "readonly_headers"))
     ck.require(set(ro) == spec.PROTECTED_HEADERS, "C18.3", "jsonrpc.TransportMixIn.readonly_headers", "= %s" % sorted(spec.PROTECTED_HEADERS),
                "the protected header names are %r; exactly Content-Length and Content-Type (lower case) must be protected, every other pushed "
